@@ -360,6 +360,15 @@ where
         F::from_canonical_usize(pis_degree_bits),
     )?;
     witness.set_cap_target(&proof_target.trace_cap, &proof.trace_cap)?;
+    // A cap the circuit has no target for must not be dropped silently: the native verifier rejects such a proof.
+    ensure!(
+        proof_target.quotient_polys_cap.is_some() || proof.quotient_polys_cap.is_none(),
+        "The proof has a quotient cap but the circuit does not expect one."
+    );
+    ensure!(
+        proof_target.auxiliary_polys_cap.is_some() || proof.auxiliary_polys_cap.is_none(),
+        "The proof has an auxiliary cap but the circuit does not expect one."
+    );
     if let (Some(quotient_polys_cap_target), Some(quotient_polys_cap)) =
         (&proof_target.quotient_polys_cap, &proof.quotient_polys_cap)
     {
